@@ -349,7 +349,8 @@ def normalize_url(
                 (
                     f
                     for d, f in PER_DOMAIN_QUERY_FILTERS
-                    if splitted.hostname.endswith(d)
+                    # NOTE: the domain itself or a subdomain, "notfacebook.com" is another site
+                    if ("." + splitted.hostname).endswith("." + d)
                 ),
                 None,
             )
